@@ -71,6 +71,8 @@ def build(ps, P, names, order, shape, pbname="pb"):
         elif role == "extra":
             if shape in ("distance", "distance2"):
                 ps.ResourceTasksDistance(name=names["extra"], resource=W, distance=P.int("dist"), mode="min")
+            elif shape == "group":
+                ps.UnorderedTaskGroup(name=names["extra"], list_of_tasks=[a, s], time_interval_length=P.int("glen"))
             elif shape == "workload":
                 ps.WorkLoad(name=names["extra"], resource=W, dict_time_intervals_and_bound={(P.int("lo"), P.int("lo") + 5): P.int("bound")})
             else:
@@ -94,12 +96,16 @@ def preconditions(P):
     P.assume(P.int("off") >= 0)
     P.assume(P.int("dist") >= 0)
     P.assume(P.int("lo") >= 0)
+    P.assume(P.int("glen") >= 0)
 
 
 NAMES_1 = dict(a="a", o="o", s="s", W="W", V="V", prec="cprec", start="cstart", extra="cextra", ind="ind")
 NAMES_2 = dict(a="alpha", o="omega", s="sigma", W="Worker9", V="v", prec="c1", start="c2", extra="c3", ind="myindicator")
 ORDER_0 = dict(tasks=("a", "o", "s"), workers=("W", "V"), constraints=("prec", "start", "extra"))
-SHAPES = ("plain", "select", "workload", "indicator", "distance", "distance2")
+SHAPES = ("plain", "select", "workload", "indicator", "distance", "distance2", "group")
+# names may be shared across kinds (each kind has its own registry): a constraint, an indicator or a worker
+# called like a task
+NAMES_3 = dict(a="a", o="o", s="s", W="a", V="o", prec="a", start="o", extra="s", ind="a")
 
 
 def norm(name):
@@ -114,12 +120,12 @@ class RenamingInvariance(Contract):
     bounded = "problem family: 3 tasks, 2 workers, 3 constraints (+ selection / workload / indicators); all integers symbolic"
 
     def cases(self, tier):
-        return [dict(shape=s) for s in SHAPES]
+        return [dict(shape=s, to=t) for s in SHAPES for t in ("fresh names", "names shared across kinds")]
 
     def scenario(self, ps, P, case):
         preconditions(P)
         pb1, s1, _ = build(ps, P, NAMES_1, ORDER_0, case["shape"])
-        pb2, s2, _ = build(ps, P, NAMES_2, ORDER_0, case["shape"])
+        pb2, s2, _ = build(ps, P, NAMES_2 if case["to"] == "fresh names" else NAMES_3, ORDER_0, case["shape"])
         return dict(A1=asserted(s1), A2=asserted(s2))
 
     def clauses(self, P, ctx, case):
@@ -131,7 +137,8 @@ class RenamingInvariance(Contract):
         why = ""
         subs = []
         # the bijection on element names, applied to a constant's name token-wise
-        ren = {NAMES_1[k]: NAMES_2[k] for k in NAMES_1}
+        N2 = NAMES_2 if case["to"] == "fresh names" else NAMES_3
+        ren = {NAMES_1[k]: N2[k] for k in NAMES_1}
         if ok:
             for x, y in zip(c1, c2):
                 n1, n2 = x.decl().name(), y.decl().name()
@@ -199,6 +206,9 @@ class DeclarationOrder(Contract):
             dict(tasks=("s", "o", "a"), workers=("V", "W"), constraints=("extra", "start", "prec")),
             dict(tasks=("a", "s", "o"), workers=("V", "W"), constraints=("start", "prec", "extra")),
         ]
+        if tier == "thorough":
+            for j, to in enumerate((("a", "s", "o"), ("o", "s", "a"), ("s", "a", "o"))):
+                perms.append(dict(tasks=to, workers=("W", "V"), constraints=("cextra", "cprec", "cstart")[::1] if False else ("extra", "prec", "start")))
         for shape in SHAPES:
             for i, p in enumerate(perms):
                 out.append(dict(shape=shape, perm=i, order=p))
